@@ -24,6 +24,7 @@ THEOREMS = [
     "PorepyVerif.C08.add_empty_rejected",
     "PorepyVerif.C08.add_present",
     "PorepyVerif.C08.get_does_not_modify",
+    "PorepyVerif.C08.get_set_independent",
     "PorepyVerif.C08.get_empty_errors",
     "PorepyVerif.C08.shift_keyError_iff",
     "PorepyVerif.C08.shift_keeps_index_zero",
@@ -36,7 +37,7 @@ THEOREMS = [
 LEAN_MODULES = ["PorepyVerif.C08.Props"]
 AUDIT = "PorepyVerif/C08/Audit.lean"
 DRIVER = "PorepyVerif/C08/Driver.lean"
-N = {"quick": 1000, "thorough": 15000}
+N = {"quick": 600, "thorough": 40000}
 TS, IT = "time_step_solutions", "iterate_solutions"
 RULE = ("histories of 3-40 calls; two layers: 'utils' = ad_utils.set/get/shift_solution_values on a plain data dict with 1-2 names "
         "(arrays of length 2-4), 'es' = EquationSystem.set/get_variable_values, shift_time_step_values, shift_iterate_values on a "
@@ -129,7 +130,7 @@ def gen_case(rng, tier):
         case = {"mode": mode, "nx": nx, "vars": vars_, "sizes": sizes}
     depth = rng.randint(1, 4)
     fixed_depth = rng.random() < 0.7
-    nmax = 40 if tier == "quick" else 40
+    nmax = 40
     ops = []
 
     def cur_depth():
